@@ -425,7 +425,7 @@ func (c *EvalCtx) ident(name string) tv {
 		}
 	}
 	if g, ok := ex.P.CS.Ghosts[name]; ok {
-		return tv{ex.ghostVar(c.st, name), ex.specGoType(g.Type, g.PkgPath)}
+		return tv{ex.ghostVar(c.st, name), ex.ghostGoType(g.Type, g.PkgPath)}
 	}
 	if sf, ok := ex.P.CS.Specs[name]; ok && len(sf.Params) == 0 {
 		return tv{ex.specApp(sf, nil, c.pkgPath), nil}
@@ -1403,6 +1403,38 @@ func (ex *Exec) specGoType(name, pkgPath string) types.Type {
 		return types.NewPointer(t)
 	}
 	return t
+}
+
+// ghostGoType: the Go type behind a ghost variable, so that its elements can be used like Go values in clauses. A ghost
+// sequence `[]T` or map `map[K]V` is an SMT array; it is given the synthetic type [0]T / [0]V, which indexes by plain
+// array selection and carries the element type (nil when the element is not a Go type, e.g. Hash).
+func (ex *Exec) ghostGoType(name, pkgPath string) types.Type {
+	name = strings.TrimSpace(name)
+	if strings.HasPrefix(name, "[]") {
+		if el := ex.ghostGoType(name[2:], pkgPath); el != nil {
+			return types.NewArray(el, 0)
+		}
+		return nil
+	}
+	if strings.HasPrefix(name, "map[") {
+		depth := 0
+		for i := 3; i < len(name); i++ {
+			switch name[i] {
+			case '[':
+				depth++
+			case ']':
+				depth--
+				if depth == 0 {
+					if el := ex.ghostGoType(name[i+1:], pkgPath); el != nil {
+						return types.NewArray(el, 0)
+					}
+					return nil
+				}
+			}
+		}
+		return nil
+	}
+	return ex.specGoType(name, pkgPath)
 }
 
 // specApp applies a spec function, declaring/defining it on first use.
